@@ -43,6 +43,8 @@ type ResponseWriter interface {
 	// LocalAddr returns the net.Addr of the server
 	LocalAddr() net.Addr
 	// RemoteAddr returns the net.Addr of the client that sent the current request.
+	// It is nil when the transport did not report one (a datagram from an unbound
+	// unixgram client on a generic net.PacketConn).
 	RemoteAddr() net.Addr
 	// WriteMsg writes a reply back to the client.
 	WriteMsg(*Msg) error
@@ -846,6 +848,10 @@ func (w *response) RemoteAddr() net.Addr {
 		return w.pcSession
 	case w.tcp != nil:
 		return w.tcp.RemoteAddr()
+	case w.udp != nil:
+		// A generic net.PacketConn may return a nil address from ReadFrom
+		// (net.UnixConn does for an unbound client): the sender is unknown.
+		return nil
 	default:
 		panic("dns: internal error: udpSession, pcSession and tcp are all nil")
 	}
